@@ -790,6 +790,12 @@ impl Database {
             });
             btree.delete(&entry.key)?;
             btree.insert(&entry.key, old_value)?;
+            let new_table_root = btree.root_page();
+            if new_table_root != table_root_page {
+                // putting the before-image back split the root
+                let page = table_storage.page_mut(0)?;
+                TableFileHeader::from_bytes_mut(page)?.set_root_page(new_table_root);
+            }
             if was_delete {
                 // DELETE took the row out of the header's row count
                 let page = table_storage.page_mut(0)?;
@@ -848,6 +854,12 @@ impl Database {
                                 } else {
                                     let _ = index_btree.delete(key_buf);
                                 }
+                                let new_index_root = index_btree.root_page();
+                                if new_index_root != index_root_page {
+                                    let page0 = index_storage.page_mut(0)?;
+                                    IndexFileHeader::from_bytes_mut(page0)?
+                                        .set_root_page(new_index_root);
+                                }
                             }
                         }
                     }
@@ -892,6 +904,12 @@ impl Database {
                                 let _ = index_btree.insert(key_buf, &entry.key);
                             } else {
                                 let _ = index_btree.delete(key_buf);
+                            }
+                            let new_index_root = index_btree.root_page();
+                            if new_index_root != index_root_page {
+                                let page0 = index_storage.page_mut(0)?;
+                                IndexFileHeader::from_bytes_mut(page0)?
+                                    .set_root_page(new_index_root);
                             }
                         }
                     }
